@@ -99,7 +99,62 @@ def verify_entry(ident, prop, wt, sub, cmd):
     return rec
 
 
+def verify_auto(ident, prop, wt, sub, round_text):
+    """Build command taken from the `BUILD: ` line of the agent's README.md; the demo is copied to
+    the worktree root and built there."""
+    import re
+    d = os.path.join(wt, sub)
+    readme = open(os.path.join(d, "README.md"), errors="replace").read()
+    m = re.search(r"BUILD:\s*`?([^`\n]+)`?", readme)
+    if not m:
+        print(ident, "no BUILD line")
+        return None
+    build = m.group(1).strip()
+    out = re.search(r"-o\s+(\S+)", build)
+    binp = out.group(1) if out else "a.out"
+    sh("git checkout -- . ", wt)
+    copied = []
+    for f in os.listdir(d):
+        if f.endswith(".c") or f.endswith(".h"):
+            shutil.copy(os.path.join(d, f), os.path.join(wt, f))
+            copied.append(f)
+    rec = {"id": ident, "property": prop, "breaks_property": prop}
+    run = build + " && ./" + binp.lstrip("./")
+    rc, o = sh(run, wt)
+    rec["demo_on_clean_tree"] = "exit %d" % rc
+    rc_a, o_a = sh("git apply " + os.path.join(sub, "patch.diff"), wt)
+    rec["patch_applies"] = rc_a == 0
+    rc_t, o_t = sh("rm -rf _vb && cmake -S . -B _vb -DCMAKE_BUILD_TYPE=Release >/dev/null && cmake --build _vb -j16 >/dev/null 2>&1 && ctest --test-dir _vb -j8 --timeout 900 2>&1 | tail -3", wt)
+    rec["suite_with_change"] = "13/13 passed" if "100% tests passed, 0 tests failed out of 13" in o_t else "FAILED: " + o_t[-200:]
+    rc2, o2 = sh(run, wt)
+    rec["demo_with_change"] = "exit %d" % rc2
+    rec["demo_output_with_change"] = [l for l in o2.splitlines() if l.strip()][-3:]
+    sh("git checkout -- . && rm -rf _vb " + binp + " " + " ".join(copied), wt)
+    rec["confirmed"] = (rc == 0 and rc_a == 0 and rc2 != 0 and rec["suite_with_change"].startswith("13/13"))
+    rec["demo_build_cmd"] = build
+    rec["round"] = round_text
+    cond = re.search(r"(?is)(condition[^\n]*\n+)(.{20,600}?)(\n\n|\Z)", readme)
+    rec["needs_to_manifest"] = " ".join((cond.group(2) if cond else readme[:400]).split())[:500]
+    rec["confirmed_how"] = "tools/seeded_verify.py auto, in the scratch worktree: demo exits 0 on the clean tree; patch applies; unedited suite 13/13 with the change; demo fails with the change"
+    print(ident, "confirmed" if rec["confirmed"] else "NOT CONFIRMED", rec["demo_on_clean_tree"], rec["demo_with_change"], rec["suite_with_change"])
+    if not rec["confirmed"]:
+        print("   clean:", o[-300:].replace("\n", " | "))
+        print("   changed:", o2[-300:].replace("\n", " | "))
+    if rec["confirmed"]:
+        dst = os.path.join(V, "seeded", ident)
+        os.makedirs(dst, exist_ok=True)
+        for f in os.listdir(d):
+            if f in ("patch.diff", "demo.c", "README.md") or f.endswith(".h"):
+                shutil.copy(os.path.join(d, f), os.path.join(dst, f))
+        json.dump(rec, open(os.path.join(dst, "meta.json"), "w"), indent=1)
+    return rec
+
+
 def main():
+    if len(sys.argv) > 1 and sys.argv[1] == "auto":
+        # auto <ID> <property> <worktree> <subdir> [round text]
+        verify_auto(sys.argv[2], sys.argv[3], sys.argv[4], sys.argv[5], sys.argv[6] if len(sys.argv) > 6 else "")
+        return 0
     if len(sys.argv) > 1 and sys.argv[1] == "round2":
         sel = sys.argv[2:]
         for e in ROUND2:
